@@ -403,7 +403,7 @@ func runC13(c *kit.Ctx) {
 	// ---- R4 -----------------------------------------------------------------
 	c.StartRule("R4", "the scanner tests its context before every fetch", 2)
 	if next := c.Anchor("", "scanner", "Next"); next != nil {
-		var ctxSel *ssa.Select
+		var ctxSel ssa.Instruction
 		kit.Instrs(next, func(in ssa.Instruction) {
 			if sel, ok := in.(*ssa.Select); ok && !sel.Blocking {
 				for _, st := range sel.States {
@@ -411,6 +411,39 @@ func runC13(c *kit.Ctx) {
 						if os := a.originOf(call.Call.Value, 0); callerBound(os) {
 							ctxSel = sel
 						}
+					}
+				}
+			}
+			// the other form of the same test: if err := ctx.Err(); err != nil
+			if call, ok := in.(*ssa.Call); ok && ctxSel == nil && call.Call.IsInvoke() && call.Call.Method.Name() == "Err" && isCtxType(call.Call.Value) {
+				if os := a.originOf(call.Call.Value, 0); callerBound(os) {
+					tested := false
+					var visit func(v ssa.Value, d int)
+					visit = func(v ssa.Value, d int) {
+						if d > 3 {
+							return
+						}
+						for _, r := range kit.Referrers(v) {
+							switch x := r.(type) {
+							case *ssa.If:
+								tested = true
+							case *ssa.BinOp:
+								visit(x, d+1)
+							case *ssa.Store:
+								// spilled into a named result / captured variable and re-loaded
+								if al, ok := x.Addr.(*ssa.Alloc); ok {
+									for _, rr := range kit.Referrers(al) {
+										if l, ok := rr.(*ssa.UnOp); ok && l.Block() == x.Block() {
+											visit(l, d+1)
+										}
+									}
+								}
+							}
+						}
+					}
+					visit(call, 0)
+					if tested {
+						ctxSel = call
 					}
 				}
 			}
